@@ -338,6 +338,7 @@ theorem inv_exitOk {F : List Kind} {g : G} (k : Kind) (h : Inv (k :: F) g) : Inv
   | irapply => exact inv_pop _ (by decide) (by decide) (by decide) h
   | sm => exact inv_pop _ (by decide) (by decide) (by decide) h
   | loop => exact inv_pop _ (by decide) (by decide) (by decide) h
+  | scope => exact inv_pop _ (by decide) (by decide) (by decide) h
 
 /-- exception exit of any region keeps the invariant ON THE REPAIRED TREE -/
 theorem inv_exitExc {F : List Kind} {g : G} (k : Kind) (h : Inv (k :: F) g) : Inv F (exitExc Cfg.fixed k g) := by
@@ -356,6 +357,7 @@ theorem inv_exitExc {F : List Kind} {g : G} (k : Kind) (h : Inv (k :: F) g) : In
   | always => exact inv_exitOk _ h
   | sm => exact inv_exitOk _ h
   | loop => exact inv_exitOk _ h
+  | scope => exact inv_exitOk _ h
 
 theorem inv_enter {F : List Kind} {g g1 : G} {k k1 : Kind} {a : List Nat} {n : Nat} {t : List Tok}
     (he : enter k a n g = .ok (g1, t, k1)) (h : Inv F g) : Inv (k1 :: F) g1 := by
@@ -422,6 +424,10 @@ theorem inv_enter {F : List Kind} {g g1 : G} {k k1 : Kind} {a : List Nat} {n : N
   | ircall => exact generic .ircall (by decide) (by decide) (by decide) (by simpa only [enter] using he)
   | irapply => exact generic .irapply (by decide) (by decide) (by decide) (by simpa only [enter] using he)
   | loop => exact generic .loop (by decide) (by decide) (by decide) (by simpa only [enter] using he)
+  | scope =>
+    simp only [enter, Except.ok.injEq, Prod.mk.injEq] at he
+    obtain ⟨rfl, _, rfl⟩ := he
+    exact inv_push _ _ (by decide) (by decide) (by decide) h
 
 theorem act_frame {cfg : Cfg} {perm : List Nat → List Nat} {a : Act} {g g1 : G} {t : List Tok}
     (h : act cfg perm a g = .ok (g1, t)) : g1.s = g.s ∧ g1.inst = g.inst ∧ g1.reg = g.reg := by
@@ -436,6 +442,10 @@ theorem act_frame {cfg : Cfg} {perm : List Nat → List Nat} {a : Act} {g g1 : G
     · split at h
       · simp at h
       · simp only [Except.ok.injEq, Prod.mk.injEq] at h; obtain ⟨rfl, _⟩ := h; simp
+    · simp at h
+  case declare n =>
+    split at h
+    · simp only [Except.ok.injEq, Prod.mk.injEq] at h; obtain ⟨rfl, _⟩ := h; simp
     · simp at h
   all_goals (simp only [Except.ok.injEq, Prod.mk.injEq] at h; obtain ⟨rfl, _⟩ := h; simp)
 
